@@ -69,8 +69,8 @@ def run_inproc(tool, argv, stdin_text="", tty=False, limit_s=20.0):
     fake = FakeStdin(stdin_text, tty)
     out, err = io.StringIO(), io.StringIO()
     saved = (sys.argv, sys.stdout, sys.stderr, sys.stdin, parsers_mod.stdin)
-    old = signal.signal(signal.SIGALRM, _alarm)
-    signal.setitimer(signal.ITIMER_REAL, limit_s)
+    old = signal.signal(signal.SIGVTALRM, _alarm)
+    signal.setitimer(signal.ITIMER_VIRTUAL, limit_s)
     try:
         sys.argv = ["yaml-" + tool] + list(argv)
         sys.stdout, sys.stderr, sys.stdin = out, err, fake
@@ -89,12 +89,12 @@ def run_inproc(tool, argv, stdin_text="", tty=False, limit_s=20.0):
         return {"crash": core.exc_class(e), "site": core.crash_site(e), "out": out.getvalue(),
                 "msg": str(e)[:200]}
     finally:
-        signal.setitimer(signal.ITIMER_REAL, 0)
-        signal.signal(signal.SIGALRM, old)
+        signal.setitimer(signal.ITIMER_VIRTUAL, 0)
+        signal.signal(signal.SIGVTALRM, old)
         sys.argv, sys.stdout, sys.stderr, sys.stdin, parsers_mod.stdin = saved
 
 
-def run_subproc(tool, argv, stdin_text=None, limit_s=60.0):
+def run_subproc(tool, argv, stdin_text=None, limit_s=240.0):
     """The tool as a separate process (`python -m yamlpath.commands.<tool>`), stdin a pipe (never a TTY);
     `stdin_text=None` closes it empty."""
     env = dict(os.environ)
